@@ -6,6 +6,7 @@ CONSTANTS
   SAttrs = {"a"}
   SVals = {1, 2}
   SDates = {10, 20}
+  ClaimSigners = {1, 2}
   DelDates = {25}
   DelSigners = {1}
   MixDeletes = FALSE
